@@ -209,6 +209,11 @@ class C16:
             ctx.bad("R16.2", self.file, "get_coord_index", f"value {where}, raise_error={raise_error}",
                     f"for a value {where} (axis range [0, 1], value {v}, raise_error={raise_error}) the lookup gives {what}",
                     s.node.lineno, witness={"range": [0.0, 1.0], "value": v, "raise_error": raise_error})
+        self.check_dim_range()
+
+    def check_dim_range(self):
+        """get_dim_range = (min, max) of the dimension's own index (used by C17 as a prerequisite as well)."""
+        ctx = self.ctx
         gr = ctx.summ.of_func(DIMS, "get_dim_range")
         a, d = ("param", gr.params[0]), ("param", gr.params[1])
         idx = ("sub", ("attr", a, "indexes"), d)
@@ -231,7 +236,7 @@ class C16:
         final = [e for e in stores if e.term[1][0] == "sub" and e.term[1][1] == ("attr", arr, "data")]
         idx_stores = [e for e in stores if e not in final]
         items = ("call", ("attr", q, "items"), (), ()) if q is not None else None
-        SL = ("call", ("builtin", "slice"), (NONE,), ())
+        SL = ("slice", NONE, NONE, NONE)
         RNG = ("call", ("builtin", "range"), (("attr", arr, "ndim"),), ())
 
         def entry_ok(lid, key, val):
